@@ -485,6 +485,21 @@ func runC01Case(run *runner, idx int64, cc *checkCase, schedules int, maxDepth i
 		}
 		// schedule/storage-order independence
 		for qi, a := range answers {
+			if len(a) > 1 && ref.Check(cc.queries[qi]).SchemaError {
+				// The query reaches a relation that the configuration of that namespace
+				// does not declare (stored relationships that do not conform to the
+				// declared types): the reference has no answer there, keto answers
+				// "relation does not exist" - or a decision, when && / || is decided by
+				// another operand first. Only differing DECISIONS are judged.
+				dec := map[string]int{}
+				for k, n := range a {
+					if !strings.HasPrefix(k, "error(") {
+						dec[k] = n
+					}
+				}
+				run.count("schema_error_or_decision_depending_on_order", 1)
+				a = dec
+			}
 			if len(a) > 1 {
 				run.violate(violation{Index: idx, Sub: fmt.Sprintf("%s/q%d", m.name, qi),
 					Sig:     "C01:order-dependent:" + exprOpsInCfg(cfg),
